@@ -165,6 +165,7 @@ type vfFakeRT struct {
 	header  http.Header
 	body    []byte
 	trailer http.Header
+	chunk   int // >0: the body is delivered in reads of at most this many bytes
 }
 
 func (f *vfFakeRT) RoundTrip(req *http.Request) (*http.Response, error) {
@@ -172,17 +173,115 @@ func (f *vfFakeRT) RoundTrip(req *http.Request) (*http.Response, error) {
 		_, _ = io.Copy(io.Discard, req.Body)
 		_ = req.Body.Close()
 	}
+	var body io.Reader = bytes.NewReader(f.body)
+	if f.chunk > 0 {
+		body = &vfChunkReader{data: f.body, chunk: f.chunk}
+	}
 	return &http.Response{StatusCode: f.status, Status: fmt.Sprintf("%d %s", f.status, http.StatusText(f.status)), Proto: "HTTP/2.0", ProtoMajor: 2,
-		Header: f.header.Clone(), Body: io.NopCloser(bytes.NewReader(f.body)), Trailer: f.trailer.Clone(), Request: req, ContentLength: -1}, nil
+		Header: f.header.Clone(), Body: io.NopCloser(body), Trailer: f.trailer.Clone(), Request: req, ContentLength: -1}, nil
+}
+
+// vfChunkReader delivers at most chunk bytes per Read (what a network does to a body).
+type vfChunkReader struct {
+	data  []byte
+	chunk int
+}
+
+func (c *vfChunkReader) Read(p []byte) (int, error) {
+	if len(c.data) == 0 {
+		return 0, io.EOF
+	}
+	n := c.chunk
+	if n > len(c.data) {
+		n = len(c.data)
+	}
+	if n > len(p) {
+		n = len(p)
+	}
+	copy(p, c.data[:n])
+	c.data = c.data[n:]
+	return n, nil
+}
+
+var vfTransportVariant int
+var vfTransportVariantSeen = map[string]int{}
+
+// vfTransportVariants re-renders the same response the way transports may
+// legitimately deliver it: in small reads, with its end-of-stream message
+// compressed in a negotiated encoding, with trailer names announced up front
+// by a trailers-only response. The examiner's verdict must not depend on it.
+func vfTransportVariants(f *vfFakeRT) *vfFakeRT {
+	vfTransportVariant++
+	v := vfTransportVariant % 5
+	out := &vfFakeRT{status: f.status, header: f.header.Clone(), body: f.body, trailer: f.trailer.Clone()}
+	name := "as-is"
+	switch v {
+	case 1:
+		out.chunk, name = 1, "1-byte-reads"
+	case 2:
+		out.chunk, name = 7, "7-byte-reads"
+	case 3, 4:
+		ct := out.header.Get("Content-Type")
+		encHeader, endFlag := "", byte(0)
+		switch {
+		case strings.HasPrefix(ct, "application/connect+"):
+			encHeader, endFlag = "Connect-Content-Encoding", 2
+		case strings.HasPrefix(ct, "application/grpc-web"):
+			encHeader, endFlag = "Grpc-Encoding", 0x80
+		case strings.HasPrefix(ct, "application/grpc") && len(out.body) == 0 && len(out.trailer) == 0:
+			// trailers-only response whose header block also announces trailer names (that are then not sent)
+			out.trailer = http.Header{"X-Checksum": nil}
+			if v == 4 {
+				out.trailer = http.Header{"Grpc-Status": nil, "Grpc-Message": nil}
+			}
+			name = "trailers-only-with-announced-names"
+		}
+		if encHeader != "" && out.header.Get(encHeader) == "" {
+			// find the last envelope; compress it if it is the end-of-stream message
+			b, off := out.body, 0
+			last := -1
+			for off+5 <= len(b) {
+				l := int(binary.BigEndian.Uint32(b[off+1 : off+5]))
+				if off+5+l > len(b) {
+					break
+				}
+				last = off
+				off += 5 + l
+			}
+			if last >= 0 && off == len(b) && b[last]&endFlag != 0 && b[last]&1 == 0 {
+				payload := b[last+5:]
+				if z, err := verifkit.IndepCompress("gzip", payload); err == nil {
+					nb := append([]byte(nil), b[:last]...)
+					nb = append(nb, vfEnv(b[last]|1, z)...)
+					out.body = nb
+					out.header.Set(encHeader, "gzip")
+					name = "end-stream-gzip-compressed"
+					if v == 4 {
+						out.chunk = 5
+						name = "end-stream-gzip-compressed-5-byte-reads"
+					}
+				}
+			}
+		}
+		if name == "as-is" {
+			out.chunk, name = 3, "3-byte-reads"
+		}
+	}
+	vfTransportVariantSeen[name]++
+	return out
 }
 
 func vfExamineSynthetic(f *vfFakeRT) ([]string, *verifkit.Panic) {
+	f = vfTransportVariants(f)
 	req, _ := http.NewRequest("POST", "http://example.test/connectrpc.conformance.v1.ConformanceService/Unary", strings.NewReader("x"))
 	req.Header.Set("X-Test-Case-Name", "Wire/T")
 	var fb []string
 	pn := verifkit.Catch(func() {
 		_, _, fb, _, _ = referenceclient.VfExamineExchange(f, req)
 	})
+	if pn == nil && len(fb) > 0 {
+		fb = append(fb, fmt.Sprintf("(transport variant: chunk=%d encoding=%q trailer=%v)", f.chunk, f.header.Get("Connect-Content-Encoding")+f.header.Get("Grpc-Encoding"), f.trailer))
+	}
 	return fb, pn
 }
 
@@ -237,7 +336,7 @@ func vfRenderAll(r *verifkit.Rand, e *vfWireErr, blockOverride string, jsonOverr
 // TestVerifC13WellFormed: spec-conformant renderings (independent encoder and
 // the reference server's own encoders) must produce no feedback.
 func TestVerifC13WellFormed(t *testing.T) {
-	rep := verifkit.Begin("C13", "wellformed", "errors (16 codes x messages: empty, ASCII, %, %41, multi-byte UTF-8, control bytes, 500 chars, random UTF-8, invalid UTF-8 without details; no leading/trailing whitespace) x 0-3 details of registered types x metadata (valid field names/values, -bin entries) rendered by (1) an independent spec encoder as Connect error JSON (plain and gzip), Connect end-stream, gRPC-Web trailer block, gRPC trailers and trailers-only, (2) the reference server's grpcStatusTrailers/grpcWebStatusEndStream; all examined through the reference client's real capture+trace+examineWireDetails chain; distinct = (error, rendering)")
+	rep := verifkit.Begin("C13", "wellformed", "errors (16 codes x messages: empty, ASCII, %, %41, multi-byte UTF-8, control bytes, 500 chars, random UTF-8, invalid UTF-8 without details; no leading/trailing whitespace) x 0-3 details of registered types x metadata (valid field names/values, -bin entries) rendered by (1) an independent spec encoder as Connect error JSON (plain and gzip), Connect end-stream, gRPC-Web trailer block, gRPC trailers and trailers-only, (2) the reference server's grpcStatusTrailers/grpcWebStatusEndStream; all examined through the reference client's real capture+trace+examineWireDetails chain, each under a rotating transport variant (one read, 1/3/7-byte reads, end-of-stream message gzip-compressed in the negotiated encoding with and without 5-byte reads, trailers-only response that announces trailer names); distinct = (error, rendering)")
 	defer rep.Write()
 	rng := verifkit.Stream("c13wf")
 	n := verifkit.Scale(1500, 40000)
@@ -293,6 +392,11 @@ func TestVerifC13WellFormed(t *testing.T) {
 		}
 	}
 	rep.Sample(map[string]any{"code": 9, "message": "100% sure %41", "rendering": "grpc-web trailer block 'grpc-status: 9\\r\\ngrpc-message: 100%25 sure %2541\\r\\n'", "expect": "no feedback"})
+	for k, v := range vfTransportVariantSeen {
+		rep.Count("transport:"+k, v)
+	}
+	rep.RequireMin("transport:end-stream-gzip-compressed-5-byte-reads", 20)
+	rep.RequireMin("transport:trailers-only-with-announced-names", 20)
 	rep.RequireMin("wellformed:connect-stream", 100)
 	rep.RequireMin("wellformed:refserver-grpc-web", 100)
 }
@@ -535,6 +639,10 @@ func TestVerifC13Malformed(t *testing.T) {
 		}
 	}
 	rep.Sample(map[string]any{"class": "block/lf-only-line-endings", "input": "grpc-status: 9\\ngrpc-message: x\\n", "expect": ">= 1 feedback line"})
+	for k, v := range vfTransportVariantSeen {
+		rep.Count("transport:"+k, v)
+	}
+	rep.RequireMin("transport:end-stream-gzip-compressed-5-byte-reads", 20)
 	rep.RequireMin("malformed_flagged", 1000)
 }
 
